@@ -38,6 +38,7 @@ Quoted(s) == IF ~HasCp(s, 34) THEN <<34>> \o s \o <<34>> ELSE IF ~HasCp(s, 39) T
 Bare(E, s) == /\ Classify(E, s).c = "unq" /\ Classify("OMNI", s).c = "unq"
               /\ s[Len(s)] # 45                                   \* a trailing dash is a line continuation for some readers
               /\ (E \in {"ODL", "PDS3"} => IsIdentifier(s))
+              /\ ~\E h \in 1..Len(s) : s[h] \in PyWS \ WS             \* (what a reader does with a no-break space etc. in a bare word is left open)
 WriteStr(E, s) ==
    IF \E k \in 1..Len(s) : ~Allowed(E, s[k]) THEN Refuse
    ELSE IF s # <<>> /\ Bare(E, s) THEN s
